@@ -58,6 +58,12 @@ def build_gen(spec):
     """Construct the real generator described by `spec` (may raise what the constructor raises)."""
     ty = spec["type"]
     sr = spec.get("start_row")
+    if spec.get("via_cli"):
+        # built by the real `main(argv)` from the command-line spelling of the specification
+        from harness import climain
+        g = climain.build_gen({k: v for k, v in spec.items() if k != "via_cli"})
+        if g is not None:
+            return g
     if ty == "pn":
         bob = spec.get("bob")
         single = spec.get("single")
